@@ -25,12 +25,22 @@ STRATEGIES = ["operationId", "clean", "path"]
 
 def case_fn(case: dict, d):
     root = d / "proj"
+    # C01 quantifies over every generation that returns normally, whatever this process and this output directory have seen before:
+    # `history` = documents generated first, in this process, into the same place (the last generation is the one that is judged)
+    for k, prev in enumerate(case.get("history", [])):
+        e2e.generate(prev, root, package=case["package"], core=case.get("core"), strategy=case.get("strategy", "operationId"),
+                     spec_path=None, force=True, fmt="json")
+        if case.get("wipe_between") and k == len(case["history"]) - 1:
+            import shutil
+            shutil.rmtree(root, ignore_errors=True)
     g = e2e.generate(case["doc"], root, package=case["package"], core=case.get("core"), strategy=case.get("strategy", "operationId"))
     if not g["ok"]:
         return {"gen_ok": False, "gen_error": g["error"]}
+    import os
+    missing = sorted({os.path.relpath(f, root) for f in g["files"] if not os.path.exists(f)})
     syn = e2e.syntax_errors(root)
     pr = e2e.probe(root, case["package"], case.get("core"), ["import_all"])
-    return {"gen_ok": True, "syntax": syn, "probe": pr, "nfiles": len(g["files"])}
+    return {"gen_ok": True, "syntax": syn, "probe": pr, "nfiles": len(g["files"]), "missing_files": missing}
 
 
 # ------------------------------------------------------------------------------------------------ classification
@@ -150,6 +160,9 @@ def classify(case: dict, res: dict) -> list[tuple[str | None, str, dict]]:
     probs = []
     for s in res.get("syntax", []):
         probs.append(("syntax", s["file"], s["error"] + " | " + s.get("line", "")))
+    if res.get("missing_files"):
+        probs.append(("missing-file", res["missing_files"][0], f"generate_client reported {len(res['missing_files'])} file(s) that do not exist afterwards: "
+                      + ", ".join(res["missing_files"][:4])))
     pr = res.get("probe", {})
     if "probe_error" in pr:
         probs.append(("probe", "probe", json.dumps(pr)[:300]))
@@ -205,6 +218,17 @@ def make_cases(ctx, r) -> list[dict]:
         rr = rng(f"C01:wide:{i}")
         pkg, core = LAYOUTS[(i * 3) % len(LAYOUTS)]
         cases.append({"id": f"wide-{i}", "stream": "wide", "doc": gs.gen_spec(rr, o), "package": pkg, "core": core,
+                      "strategy": STRATEGIES[i % 3]})
+    # histories: the judged generation is the second (or third) one of this process into the same output directory
+    n_hist = ctx.budget(16, 120)
+    for i in range(n_hist):
+        o = gs.Opts(mainstream=True, defaults=(i % 2 == 0), unions=(i % 4 == 0), streaming=(i % 5 == 0), multi_tags=(i % 3 == 0))
+        rr = rng(f"C01:hist:{i}")
+        pkg, core = LAYOUTS[i % len(LAYOUTS)]
+        doc = gs.gen_spec(rr, o)
+        prev = doc if i % 3 == 0 else gs.gen_spec(rng(f"C01:hist-prev:{i}"), o)      # the same document again, or an earlier version of the API
+        hist = [prev] if i % 4 else [prev, doc]
+        cases.append({"id": f"hist-{i}", "stream": "history", "doc": doc, "history": hist, "wipe_between": (i % 5 == 4), "package": pkg, "core": core,
                       "strategy": STRATEGIES[i % 3]})
     return cases
 
@@ -288,7 +312,8 @@ def check(run: Run, ctx) -> None:
             if fid and known.listed(fid):
                 known.hit(fid, {"id": case["id"], "desc": desc})
             else:
-                run.violation("input", {"doc": case["doc"], "package": case["package"], "core": case.get("core"), "strategy": case["strategy"]},
+                run.violation("input", {"doc": case["doc"], "package": case["package"], "core": case.get("core"), "strategy": case["strategy"],
+                                        **({"history": case["history"], "wipe_between": case.get("wipe_between", False)} if case.get("history") else {})},
                               observed=desc, expected="every emitted module compiles and imports", what=desc[:300])
                 break
     run.cov["known_findings_replayed"] = replayed
